@@ -264,6 +264,9 @@ class SET(_StringType):
         return process
 
     def adapt(self, cls: type, **kw: Any) -> Any:
+        if not issubclass(cls, SET):
+            # e.g. the generic String impl picked by a non-MySQL dialect
+            return util.constructor_copy(self, cls, **kw)
         kw["retrieve_as_bitwise"] = self.retrieve_as_bitwise
         return util.constructor_copy(self, cls, *self.values, **kw)
 
